@@ -179,13 +179,15 @@ theorem merged_isSome_order (recs : List Rec) (core : Files) (o1 o2 : List Nat)
     ((mergedPluginFiles recs o1).bind (mergeFiles core)).isSome =
     ((mergedPluginFiles recs o2).bind (mergeFiles core)).isSome := by
   unfold mergedPluginFiles
-  have p1 : ((pickOrder recs o1).filterMap (·.files)).Perm (recs.filterMap (·.files)) :=
-    (pickOrder_perm recs o1 h1).filterMap _
-  have p2 : ((pickOrder recs o2).filterMap (·.files)).Perm (recs.filterMap (·.files)) :=
-    (pickOrder_perm recs o2 h2).filterMap _
-  generalize (pickOrder recs o1).filterMap (·.files) = L1 at p1
-  generalize (pickOrder recs o2).filterMap (·.files) = L2 at p2
-  generalize recs.filterMap (·.files) = L at p1 p2
+  have p1 : (((pickOrder recs o1).filterMap (·.files)).map normFiles).Perm
+      ((recs.filterMap (·.files)).map normFiles) :=
+    ((pickOrder_perm recs o1 h1).filterMap _).map _
+  have p2 : (((pickOrder recs o2).filterMap (·.files)).map normFiles).Perm
+      ((recs.filterMap (·.files)).map normFiles) :=
+    ((pickOrder_perm recs o2 h2).filterMap _).map _
+  generalize ((pickOrder recs o1).filterMap (·.files)).map normFiles = L1 at p1
+  generalize ((pickOrder recs o2).filterMap (·.files)).map normFiles = L2 at p2
+  generalize (recs.filterMap (·.files)).map normFiles = L at p1 p2
   have f1 : L1.flatten.Perm L.flatten := List.Perm.flatten p1
   have f2 : L2.flatten.Perm L.flatten := List.Perm.flatten p2
   by_cases hnd : (keys L.flatten).Nodup
